@@ -1394,16 +1394,39 @@ class Generator:
         pieces = pieces_from(toks, a, b)
         n3_attrs_and_vis(pieces, file, self.applied)
         n2_logging(pieces, file, self.applied)
-        f = find_pattern(pieces, kv["from"])
-        t = find_pattern(pieces, kv["to"])
-        if len(f) != 1 or len(t) != 1:
-            raise ExtractError(f"{iid}: fragment anchors must match exactly once (from: {len(f)}, to: {len(t)})")
-        si = f[0][3]
-        lo, hi = si[f[0][0]], si[t[0][0]]
+        footer = []
+        if any(l.strip() == "//@ body" for l in hdr):
+            k = next(i for i, l in enumerate(hdr) if l.strip() == "//@ body")
+            hdr, footer = hdr[:k], hdr[k + 1:]
+        pre = []
+        if any(l.strip() == "//@ pre" for l in hdr):
+            k = next(i for i, l in enumerate(hdr) if l.strip() == "//@ pre")
+            hdr, pre = hdr[:k], hdr[k + 1:]
+        if "match" in kv:
+            f = find_pattern(pieces, kv["match"])
+            if len(f) != 1:
+                raise ExtractError(f"{iid}: fragment pattern must match exactly once (matches {len(f)} times)")
+            si = f[0][3]
+            lo, hi = si[f[0][0]], si[f[0][1] - 1] + 1
+            kv = dict(kv, **{"from": kv["match"], "to": "(end of match)"})
+        else:
+            f = find_pattern(pieces, kv["from"])
+            t = find_pattern(pieces, kv["to"])
+            if len(f) != 1 or len(t) != 1:
+                raise ExtractError(f"{iid}: fragment anchors must match exactly once (from: {len(f)}, to: {len(t)})")
+            si = f[0][3]
+            lo, hi = si[f[0][0]], si[t[0][0]]
         if lo >= hi:
             raise ExtractError(f"{iid}: fragment anchors out of order")
         frag = [p for p in pieces[lo:hi]]
         item_src = "".join(p.text for p in frag)
+        rws = [l for l in hdr if l.strip().startswith("//@ rewrite ")]
+        hdr = [l for l in hdr if not l.strip().startswith("//@ rewrite ")]
+        for l in rws:
+            m = re.match(r'//@ rewrite\s+(\S+)\s+"((?:[^"\\]|\\.)*)"\s*=>\s*"((?:[^"\\]|\\.)*)"(?:\s+count=(\S+))?', l.strip())
+            if not m:
+                raise ExtractError(f"{iid}: bad rewrite in fragment: {l}")
+            apply_rewrite(frag, m.group(1), m.group(2), m.group(3), m.group(4) or "1", file, self.applied)
         sha = hashlib.sha256(item_src.encode()).hexdigest()
         first_line = pieces[lo].line
         gen_start = len(self.out) + 1
@@ -1422,6 +1445,8 @@ class Generator:
             cl["text"] = (cl["text"] + " " + l.strip()).strip()
             self.out.append((l + f" /*@{c}*/", {"k": "inj", "clause": c, "tags": list(ct), "item": iid}))
         self.out.append(("{ /*@N11 fragment start*/", {"k": "inj", "clause": f"{iid}.frame", "tags": list(tags), "item": iid}))
+        for l in pre:
+            self.out.append((l + f" /*@{iid}.frame*/", {"k": "inj", "clause": f"{iid}.frame", "tags": list(tags), "item": iid}))
         if self.canary:
             n = len(self.canaries) + 1
             self.canaries.append({"id": f"CANARY.{n}", "item": iid, "where": "fragment entry"})
@@ -1443,6 +1468,8 @@ class Generator:
                 buf += part
         if buf.strip():
             self.out.append((buf, {"k": "src", "file": file, "line": line}))
+        for l in footer:
+            self.out.append((l + f" /*@{iid}.frame*/", {"k": "inj", "clause": f"{iid}.frame", "tags": list(tags), "item": iid}))
         self.out.append(("} /*@N11 fragment end*/", {"k": "inj", "clause": f"{iid}.frame", "tags": list(tags), "item": iid}))
         gen_end = len(self.out)
         norm_tokens = [p.text for p in frag if not p.dead and p.tkind not in ("ws", "lcomment", "bcomment")]
